@@ -3,6 +3,7 @@ package main
 import (
 	"fmt"
 	"go/token"
+	"go/types"
 	"strings"
 
 	"golang.org/x/tools/go/ssa"
@@ -12,7 +13,7 @@ import (
 
 func init() {
 	checks["C12"] = checkC12
-	explanations["C12"] = "Structural necessary conditions over everything reachable from cbor.Unmarshal, (*Decoder).Decode, ArrayShift and the convention types' unmarshalers (codec dispatch edges added by hand), every input byte treated as attacker-controlled: (1) G2: each allocation whose size derives from a wire head is dominated by an upper-bound comparison (MaxArrayDecodeLength) whose failing edge returns an error; (2) Unmarshal returns success only after buf.Len() > 0 was false (no trailing bytes), and a byte-string wrapper (Bstr, ByteWrap) reports success only after the reader limited to the declared length was found exhausted; (3) G1: every explicit panic is an SSA artifact, type-shape dependent, exhaustive-switch fallthrough or by-construction (reviewed table), with the head-byte helpers' invariants checked; (4) G3/G4: index/slice expressions the compiler could not prove and stdlib preconditions are guarded; (5) allocations proportional to a CLAIMED rather than a received length are enumerated — they pass clause 1 (bounded by the documented limit) but contradict the property's last sentence, and are carried as known findings. Not decided: termination, exact consumption of a well-formed item, reflect-internal panics, stack depth."
+	explanations["C12"] = "Structural necessary conditions over everything reachable from cbor.Unmarshal, (*Decoder).Decode, ArrayShift and the convention types' unmarshalers (codec dispatch edges added by hand), every input byte treated as attacker-controlled: (1) G2: each allocation whose size derives from a wire head is dominated by an upper-bound comparison (MaxArrayDecodeLength) whose failing edge returns an error; (2) Unmarshal returns success only after buf.Len() > 0 was false (no trailing bytes), and a byte-string wrapper (Bstr, ByteWrap) reports success only after the reader limited to the declared length was found exhausted; (3) G1: every explicit panic is an SSA artifact, type-shape dependent, exhaustive-switch fallthrough or by-construction (reviewed table), with the head-byte helpers' invariants checked; (4) G3/G4: index/slice expressions the compiler could not prove and stdlib preconditions are guarded; (5) allocations proportional to a CLAIMED rather than a received length are enumerated — they pass clause 1 (bounded by the documented limit) but contradict the property's last sentence, and are carried as known findings. Also (who-may-call): package cbor takes bytes from a reader only with io.ReadFull, a Read into a one-byte array, or through a limited reader; ReadAtLeast/ReadAll/Copy* do not fix the number of bytes consumed. Not decided: termination, exact consumption of a well-formed item, reflect-internal panics, stack depth."
 }
 
 func checkC12(c *Ctx, p *Prog, r *Result) {
@@ -80,6 +81,7 @@ func checkC12(c *Ctx, p *Prog, r *Result) {
 	// (2b) a byte string that wraps an item is consumed in full
 	c12WrappedItemConsumed(p, r)
 	c12KindRestricted(p, r)
+	c12ExactReads(p, r)
 
 	// head helpers invariants behind two reviewed panics
 	r.rule("C12.head-bytes", "the additional-bytes buffer is made with a constant size of 1, 2, 4 or 8 (so toU64 never sees more than 8 bytes)")
@@ -465,6 +467,69 @@ func c12KindRestricted(p *Prog, r *Result) {
 					detail = "a path reaches the call without restricting the kind to the helper's cases: " + bad
 				}
 				r.table(p, rule, key, p.instrPos(call), bad == "", detail)
+			}
+		}
+	}
+}
+
+// c12ExactReads — "C12.exact-reads". An item is consumed exactly when every
+// read of the decoder takes a number of bytes fixed before the read: the one
+// initial byte, or io.ReadFull into a buffer. A reader primitive that may return
+// after fewer or take more bytes than asked (ReadAtLeast with a larger buffer,
+// ReadAll, Copy, a bare Read into a longer buffer) mis-frames what follows.
+func c12ExactReads(p *Prog, r *Result) {
+	rule := "C12.exact-reads"
+	r.rule(rule, "in package cbor every byte taken from an io.Reader is taken by io.ReadFull, by a Read into a one-byte buffer (the initial byte), or through io.LimitReader/io.LimitedReader; io.ReadAtLeast, io.ReadAll, io.Copy*, and Read into longer buffers do not fix the number of bytes consumed and are not allowed")
+	r.floor(rule, 4)
+	pkg := modulePath + "/cbor"
+	seen := map[string]int{}
+	for _, fn := range p.Funcs {
+		if funcPkgPath(fn) != pkg || fn.Blocks == nil {
+			continue
+		}
+		for _, b := range fn.Blocks {
+			for _, in := range b.Instrs {
+				call, ok := in.(ssa.CallInstruction)
+				if !ok {
+					continue
+				}
+				cc := call.Common()
+				name, okv, detail := "", false, ""
+				if cc.IsInvoke() {
+					if cc.Method.Name() != "Read" || cc.Method.Pkg() == nil || cc.Method.Pkg().Path() != "io" {
+						continue
+					}
+					name = "io.Reader.Read"
+					if sl, ok := cc.Args[0].(*ssa.Slice); ok {
+						if pt, ok := sl.X.Type().Underlying().(*types.Pointer); ok {
+							if at, ok := pt.Elem().Underlying().(*types.Array); ok && at.Len() == 1 && sl.Low == nil && sl.High == nil {
+								okv, detail = true, "Read into a one-byte array"
+							}
+						}
+					}
+					if !okv {
+						detail = "a bare Read may return fewer bytes than the buffer holds; only the one-byte initial read is allowed"
+					}
+				} else {
+					cal := cc.StaticCallee()
+					if cal == nil || cal.Pkg == nil || cal.Pkg.Pkg.Path() != "io" {
+						continue
+					}
+					switch cal.Name() {
+					case "ReadFull":
+						name, okv, detail = "io.ReadFull", true, "reads exactly len(buffer) bytes or fails"
+					case "ReadAtLeast", "ReadAll", "Copy", "CopyN", "CopyBuffer":
+						name, okv, detail = "io."+cal.Name(), false, "does not fix the number of bytes consumed from the decoder's reader"
+					default:
+						continue
+					}
+				}
+				construct := name + " in " + p.FuncName(fn)
+				seen[construct]++
+				if seen[construct] > 1 {
+					construct = fmt.Sprintf("%s #%d", construct, seen[construct])
+				}
+				r.table(p, rule, construct, p.instrPos(in), okv, detail)
 			}
 		}
 	}
